@@ -878,6 +878,11 @@ orc_compiler_rewrite_insns (OrcCompiler *compiler)
             var->vartype == ORC_VAR_TYPE_DEST) {
           OrcInstruction *cinsn;
 
+          if (compiler->n_insns >= ORC_N_INSNS) {
+            orc_compiler_error (compiler, "too many instructions after adding loads and stores");
+            compiler->result = ORC_COMPILE_RESULT_UNKNOWN_PARSE;
+            return;
+          }
           cinsn = compiler->insns + compiler->n_insns;
           compiler->n_insns++;
 
@@ -915,6 +920,11 @@ orc_compiler_rewrite_insns (OrcCompiler *compiler)
             insn.src_args[i] = loaded;
             continue;
           }
+          if (compiler->n_insns >= ORC_N_INSNS) {
+            orc_compiler_error (compiler, "too many instructions after adding loads and stores");
+            compiler->result = ORC_COMPILE_RESULT_UNKNOWN_PARSE;
+            return;
+          }
           cinsn = compiler->insns + compiler->n_insns;
           compiler->n_insns++;
 
@@ -935,6 +945,11 @@ orc_compiler_rewrite_insns (OrcCompiler *compiler)
       }
     }
 
+    if (compiler->n_insns >= ORC_N_INSNS) {
+      orc_compiler_error (compiler, "too many instructions after adding loads and stores");
+      compiler->result = ORC_COMPILE_RESULT_UNKNOWN_PARSE;
+      return;
+    }
     xinsn = compiler->insns + compiler->n_insns;
     memcpy (xinsn, &insn, sizeof(OrcInstruction));
     compiler->n_insns++;
@@ -949,6 +964,11 @@ orc_compiler_rewrite_insns (OrcCompiler *compiler)
         if (var->vartype == ORC_VAR_TYPE_DEST) {
           OrcInstruction *cinsn;
 
+          if (compiler->n_insns >= ORC_N_INSNS) {
+            orc_compiler_error (compiler, "too many instructions after adding loads and stores");
+            compiler->result = ORC_COMPILE_RESULT_UNKNOWN_PARSE;
+            return;
+          }
           cinsn = compiler->insns + compiler->n_insns;
           compiler->n_insns++;
 
@@ -1288,6 +1308,13 @@ orc_compiler_dup_temporary (OrcCompiler *compiler, int var, int j)
 {
   int i = ORC_VAR_T1 + compiler->n_temp_vars + compiler->n_dup_vars;
 
+  if (i >= ORC_N_COMPILER_VARIABLES) {
+    /* the compile fails; hand back a slot that exists */
+    orc_compiler_error (compiler, "too many temporary variables needed");
+    compiler->result = ORC_COMPILE_RESULT_UNKNOWN_PARSE;
+    return ORC_N_COMPILER_VARIABLES - 1;
+  }
+
   compiler->vars[i].vartype = ORC_VAR_TYPE_TEMP;
   compiler->vars[i].size = compiler->vars[var].size;
   compiler->vars[i].name = orc_malloc (strlen(compiler->vars[var].name) + 10);
@@ -1301,6 +1328,13 @@ static int
 orc_compiler_new_temporary (OrcCompiler *compiler, int size)
 {
   int i = ORC_VAR_T1 + compiler->n_temp_vars + compiler->n_dup_vars;
+
+  if (i >= ORC_N_COMPILER_VARIABLES) {
+    /* the compile fails; hand back a slot that exists */
+    orc_compiler_error (compiler, "too many temporary variables needed");
+    compiler->result = ORC_COMPILE_RESULT_UNKNOWN_PARSE;
+    return ORC_N_COMPILER_VARIABLES - 1;
+  }
 
   compiler->vars[i].vartype = ORC_VAR_TYPE_TEMP;
   compiler->vars[i].size = size;
